@@ -213,16 +213,6 @@ func (dir *Local) handleNode(path string, info os.FileInfo, err error) error {
 		dir.debug("Ignored Local File:", path)
 		return nil
 	}
-	fTime := info.ModTime()
-	// It's important we use the same time reference (i.e. not "now") for
-	// determining age to make sure we don't exclude some files from a scan but
-	// not others that shoud have gone later.  This can happen because the
-	// order in which nodes are handled is nondeterministic.
-	fAge := dir.scanTimeStart.Sub(fTime)
-	if fAge < dir.MinAge {
-		dir.debug("Local File Too New:", path, "(", fAge, ",", dir.MinAge, ")")
-		return nil
-	}
 	var file *localFile
 	if file, err = newLocalFile(path, relPath, info); err != nil {
 		if err == filepath.SkipDir {
@@ -235,6 +225,19 @@ func (dir *Local) handleNode(path string, info os.FileInfo, err error) error {
 			return nil
 		}
 		return err
+	}
+	// The age that counts is that of what will be sent: for a link, the
+	// target's (the link may have been there for long while the file it points
+	// to is still being written)
+	fTime := file.GetTime()
+	// It's important we use the same time reference (i.e. not "now") for
+	// determining age to make sure we don't exclude some files from a scan but
+	// not others that shoud have gone later.  This can happen because the
+	// order in which nodes are handled is nondeterministic.
+	fAge := dir.scanTimeStart.Sub(fTime)
+	if fAge < dir.MinAge {
+		dir.debug("Local File Too New:", path, "(", fAge, ",", dir.MinAge, ")")
+		return nil
 	}
 	if dir.shouldAllow != nil && !dir.shouldAllow(file) {
 		dir.debug("Local File Skipped:", path)
